@@ -114,7 +114,7 @@ def flatten_c10(events):
             out.append(rec(t="reset", n=int(sc.get("id", 0)), site=c["mode"], b1="dc" in c["media"],
                            b2="audio" in c["media"], b3="video" in c["media"], x=c["bundle"], sig=c["mux"],
                            peer=c["ice"], b4=bool(c["latching"]), reason=c["compat"], inst=c["offerer"],
-                           m=1 if c.get("sched", "plain") == "slowSetRemote" else 0))
+                           m=1 if c.get("sched", "plain") == "slowSetRemote" else 0, evs=[c.get("reneg", "none")]))
             continue
         if comp == "life" and ev == "end":
             out.append(rec(t="end", b1=bool(e.get("signal_ok")), b2=bool(e.get("connected")),
@@ -142,7 +142,9 @@ def flatten_c10(events):
         elif comp == "app" and ev == "dc_open":
             out.append(rec(t=ev, inst=inst))
         elif comp == "life" and ev == "dc_delivery":
-            out.append(rec(t=ev, inst=inst, b1=bool(e["ok"]), b2=bool(e["ok"])))
+            out.append(rec(t=ev, inst=inst, b1=bool(e["ok"]), b2=bool(e["ok"]), n=int(e.get("round", 1))))
         elif comp == "life" and ev == "rtp_delivery":
-            out.append(rec(t=ev, inst=inst, site=e["kind"], b1=bool(e["ok"]), b2=bool(e["intact"])))
+            out.append(rec(t=ev, inst=inst, site=e["kind"], b1=bool(e["ok"]), b2=bool(e["intact"]), n=int(e.get("round", 1))))
+        elif comp == "life" and ev == "reneg":
+            out.append(rec(t="reneg", inst=e.get("by", ""), b1=bool(e["ok"]), b2=bool(e["still_connected"])))
     return out
